@@ -90,12 +90,20 @@ struct ValMutator {
       int mode = (int)r.below(3);
       if (w > 1 && (mode == 0 || s.len == Len::VAR)) { size_t k = 1 + r.below(w - 1); if (s.len == Len::CAP && v.bytes.size() + k > s.n * w) { v.bytes.resize(v.bytes.size() >= w ? v.bytes.size() - w : 0); } v.bytes.append(k, 'y'); desc = fmt("BIN(elem%zu) byte length not a multiple (+%zu)", w, k); return; }
       if (s.len == Len::FIXED) { if (mode == 1 || v.bytes.empty()) { v.bytes.append(w, 'z'); desc = "fixed BIN one element too many"; } else { v.bytes.resize(v.bytes.size() - w); desc = "fixed BIN one element short"; } return; }
-      if (s.len == Len::CAP) { size_t extra = (r.below(2) ? 1 : 1 + r.below(200)); v.bytes.assign((s.n + extra) * w, 'c'); desc = fmt("logical buffer BIN length capacity+%zu", extra); return; }
+      if (s.len == Len::CAP) { size_t extra = (r.below(2) ? 1 : 1 + r.below(200)); int mode2 = (int)r.below(4); if (mode2 == 1) extra = 256 - s.n % 256 + r.below(s.n + 1); else if (mode2 == 2) extra = 65536 - s.n % 65536 + r.below(s.n + 1); v.bytes.assign((s.n + extra) * w, 'c'); desc = fmt("logical buffer BIN length capacity+%zu", extra); return; }
     }
     if (s.k == K::ARY) {
       Rng r2(r.next()); Gen g(r2);
       if (s.len == Len::FIXED) { if (r.below(2) || v.kids.empty()) { v.kids.push_back(g.gen(s.kids[0], 2)); desc = "fixed ARY one element too many"; } else { v.kids.pop_back(); desc = "fixed ARY one element short"; } return; }
-      if (s.len == Len::CAP) { size_t extra = 1 + r.below(3); while (v.kids.size() < s.n + extra) v.kids.push_back(g.gen(s.kids[0], 2)); desc = fmt("logical buffer ARY count capacity+%zu", extra); return; }
+      if (s.len == Len::CAP) {
+        // counts just above the capacity, and counts that wrap back into the capacity when narrowed to an 8/16-bit size member
+        size_t extra = 1 + r.below(3); int mode = (int)r.below(4); K ek = s.kids[0].k; bool small_elem = ek == K::UINT || ek == K::INT || ek == K::BOOL || ek == K::CHAR || ek == K::F32 || ek == K::F64;
+        size_t target = s.n + extra;
+        if (mode == 1) target = 256 + r.below(s.n + 1); else if (mode == 2 && small_elem) target = 65536 + r.below(s.n + 1);
+        if (target <= s.n) target = s.n + extra;
+        Val proto = g.gen(s.kids[0], 2);
+        while (v.kids.size() < target) v.kids.push_back(v.kids.size() < s.n + 4 ? g.gen(s.kids[0], 2) : proto);
+        desc = fmt("logical buffer ARY count capacity+%zu", target - s.n); return; }
     }
   }
 };
